@@ -398,7 +398,8 @@ func runC10(c *Ctx) {
 			for _, leaf := range phiLeaves(sl.Low) {
 				note(leaf, 0)
 			}
-			if !(starts["head"] && starts["tail"] && starts["wrappedTail"] && len(starts) == 3) {
+			// (the start of the chunk put into an empty buffer is the new head: the claim's start, read from either field)
+			if !((starts["head"] || starts["claimHead"]) && starts["tail"] && starts["wrappedTail"] && len(starts) == 3) {
 				okChunk = false
 			}
 		}
